@@ -118,7 +118,8 @@ class C06(object):
                          'refused_registration.judged',
                          'registered.flows_under_temporary_names_repeated_and_cancelled',
                          'registered.processing_refused_then_repeated_after_defining_the_variable',
-                         'history.returned_name_list_edited_in_place_before_registration')
+                         'history.returned_name_list_edited_in_place_before_registration',
+                         'exclusion_registered_for_a_same_coded_sector_of_another_country')
 
     def n_cases(self, tier):
         return (300 if tier == 'quick' else 30000) + 1
@@ -151,7 +152,12 @@ class C06(object):
                 # defines the variable and processes the registered flows again
                 regs[0]['var'] = 'Z'
             return {'kind': 'registered', 'regs': regs, 'vseed': rng.getrandbits(32), 'twice': False, 'late_var': late}
-        return {'kind': 'history', 'ops': gen_history(rng), 'vseed': rng.getrandbits(32),
+        ops_ = gen_history(rng)
+        if idx % 6 == 5:
+            # exclusions registered for a sector with the SAME short code in another country of the model: they are that
+            # sector's business only
+            ops_ = [{'op': 'exclude', 'sector': 'TWIN', 'name': n_} for n_ in NAMES[:4]] + ops_
+        return {'kind': 'history', 'ops': ops_, 'vseed': rng.getrandbits(32),
                 'host': rng.choice(['Sector', 'Sector', 'Household']),
                 # the caller decorates, in place, the list of names it was handed (for a report) before every registration
                 'decorate_returned_names': idx % 6 == 1}
@@ -271,6 +277,7 @@ class C06(object):
             shadow_excl = set()
             defs = {}
         other = Sector(ca, 'OTHER', 'other')
+        twin = Sector(Country(mod, 'US', 'another country'), 'S', 'a sector with the same short code elsewhere')
         coefF, coefINC = {}, {}
         inc_ambiguous = False
         income_registered = set()
@@ -281,7 +288,9 @@ class C06(object):
         for j, op in enumerate(case['ops']):
             try:
                 if op['op'] == 'exclude':
-                    mod.AddCashFlowIncomeExclusion(sec if op['sector'] == 'S' else other, op['name'])
+                    mod.AddCashFlowIncomeExclusion({'S': sec, 'TWIN': twin}.get(op['sector'], other), op['name'])
+                    if op['sector'] == 'TWIN':
+                        rec.count('exclusion_registered_for_a_same_coded_sector_of_another_country')
                     if op['sector'] == 'S':
                         if op['name'] in income_registered:
                             inc_ambiguous = True
